@@ -6,7 +6,11 @@
    children, restores the current action and the token stack, and leaves every action not
    declared by the statements alone.
 
-   [C01_emission]:  number_from 0 (what destination d received) = lin (expected p). *)
+   [eval_spec]          the master lemma, for every [simple] statement list, both inside an
+                        action ([InSpec]) and at top level ([TopSpec]), from any [Good] state.
+   [C01_emission_view]  for whole programs: what destination d received, as the parser reads
+                        each dictionary, is [lin0 (expected p)] (identities are added in
+                        C01Roundtrip.v: [C01_emission]). *)
 From Coq Require Import List PArith NArith ZArith Bool Arith Lia.
 Require Import Eliot.Base.Level Eliot.Model.Core Eliot.Model.Prog Eliot.Model.Parser
   Eliot.Model.Forest Eliot.Model.Roundtrip Eliot.Model.Expected.
@@ -645,3 +649,101 @@ Proof.
   destruct (T eq_refl S1) as (G & _ & _ & _ & _ & P).
   split; [exact G|]. rewrite (Good_trace d e _ G), P. reflexivity.
 Qed.
+
+(* ====================================================================================== *)
+(* Examples                                                                               *)
+(* ====================================================================================== *)
+Module C01Examples.
+
+Definition ex_e : exn := mkExn 1 8%positive 30%positive false.
+(* an extractor for class 8 *)
+Definition ex_cfg : config := mk_config [] [(8%positive, XFields [(20%positive, VInt 4)])].
+Definition T (n : positive) : val := VTypeName n.
+
+(* six tasks: a context-less message; a start_task action with nesting depth 4 that uses the three
+   block styles, action.log, a traceback, a failing action inside a try block, fields that name
+   reserved keys, success fields, a re-entered context; a try block at top level whose message and
+   traceback are tasks of their own; two more top-level actions, the last one failing (its
+   exception escapes the program, the final message is never logged) *)
+Definition ex_p : list stmt :=
+  [ SMsg (T 10) [(21%positive, VInt 1)] None;
+    SAct 1 WithBlock true (T 11) [(K_status, VInt 1)] None [(K_atype, VInt 2)]
+      [ SMsg (T 12) [] None;
+        SAct 2 CtxFinish false (T 13) [] None []
+          [ SActLog 2 (T 19) [];
+            STry [ SAct 3 RunFinish false (T 14) [] None []
+                     [ SMsg (T 15) [] None; STraceback ex_e; SRaise ex_e; SMsg (T 16) [] None ];
+                   SMsg (T 16) [] None ];
+            SMsg (T 16) [] None ];
+        STry [ SMsg (T 17) [] None;
+               SAct 4 WithBlock false (T 18) [] None []
+                 [ SReenter 4 [SMsg (T 15) [] None];
+                   SAct 8 WithBlock false (T 18) [] None [] [SAct 9 CtxFinish false (T 18) [] None [] [SRaise ex_e]] ];
+               SMsg (T 17) [] None ];
+        SMsg (T 12) [] None ];
+    STry [SMsg (T 10) [] None; STraceback ex_e; SRaise ex_e];
+    SAct 5 RunFinish false (T 11) [] None [] [SAct 6 WithBlock false (T 11) [] None [] []];
+    SAct 7 CtxFinish false (T 11) [] None [] [SRaise ex_e];
+    SMsg (T 10) [] None ].
+
+Example ex_simple : simple ex_p = true /\ reg_ok ex_cfg ex_p = true.
+Proof. vm_compute. split; reflexivity. Qed.
+
+Example ex_expected :
+  expected ex_p =
+  [ TMsg 10;
+    TAct 11 PSucceeded
+      [ TMsg 12;
+        TAct 13 PSucceeded [TMsg 19; TAct 14 PFailed [TMsg 15; TMsg T_traceback]; TMsg 16];
+        TMsg 17;
+        TAct 18 PFailed [TMsg 15; TAct 18 PFailed [TAct 18 PFailed []]];
+        TMsg 12 ];
+    TMsg 10;
+    TMsg T_traceback;
+    TAct 11 PSucceeded [TAct 11 PSucceeded []];
+    TAct 11 PFailed [] ].
+Proof. vm_compute. reflexivity. Qed.
+
+(* the conclusion of [C01_emission_view], by evaluation: 29 messages *)
+Example ex_emission_view :
+  map pv (trace_of (fst (run_prog ex_cfg (one_dest 0 ex_e) ex_p)) 0) = map Some (lin0 (expected ex_p))
+  /\ length (lin0 (expected ex_p)) = 29.
+Proof. vm_compute. split; reflexivity. Qed.
+
+(* the hypotheses of the master lemma inside an action, on a state that is not the start state:
+   action 40 (a child of task action 41) is current, has handed out 2 positions, 3 messages were
+   logged; the statements run there are the body of action 1 of [ex_p] *)
+Definition ex_pre : list (nat * op) :=
+  one_dest 0 ex_e ++
+  [(0, OStart 41 true (T 30) [] None); (0, OEnter 41); (0, OStart 40 false (T 31) [] None); (0, OEnter 40);
+   (0, OLog (T 32) [] None)].
+Definition ex_s : state := run ex_cfg ex_pre init_state.
+Definition ex_body : list stmt :=
+  match nth 1 ex_p (SRaise ex_e) with SAct _ _ _ _ _ _ _ body => body | _ => [] end.
+
+Example ex_master_hyps :
+  Good 0 ex_e ex_s /\ cur ex_s 0 = Some 40 /\
+  (exists a, alookup 40 (heap ex_s) = Some a /\ a_last a = 2 /\ a_level a = [2%positive] /\ a_uuid a = 0) /\
+  NoDup (handles ex_body) /\ ~ In 40 (handles ex_body) /\
+  forallb (simple_stmt (Some 40)) ex_body = true /\ length (tr ex_s) = 3.
+Proof.
+  split; [|split; [|split; [|split; [|split; [|split]]]]].
+  - unfold Good. vm_compute. repeat split. eexists _, _. reflexivity.
+  - reflexivity.
+  - eexists. vm_compute. repeat split.
+  - apply nodupb_NoDup. reflexivity.
+  - vm_compute. intuition discriminate.
+  - reflexivity.
+  - reflexivity.
+Qed.
+
+(* ... and its conclusion there: the 18 new messages are the children laid out from position 3
+   of prefix [2] in task 0; the action's counter moved on by the 5 children *)
+Example ex_master_concl :
+  let s' := run ex_cfg (fst (compile 0 ex_body)) ex_s in
+  map pv (tr s') = map pv (tr ex_s) ++ map Some (lay 0 [2%positive] 2 (kids ex_body)) /\
+  length (lay 0 [2%positive] 2 (kids ex_body)) = 18 /\
+  cur s' 0 = Some 40 /\ option_map a_last (alookup 40 (heap s')) = Some 7 /\ next_uuid s' = next_uuid ex_s.
+Proof. vm_compute. repeat split; reflexivity. Qed.
+
+End C01Examples.
